@@ -29,6 +29,9 @@ type Step struct {
 	Kind string // add del flush addni sethook
 	Op   *spb.AFTOperation
 	Cls  string
+	// Burst: the next step follows at once: no observation, and no wait for the notification
+	// goroutines, between this step and the next
+	Burst bool
 	NIs  []string
 	NI   string
 	// Gap, when set on an add/del step, is a second add/del step that another goroutine tries to
@@ -692,6 +695,9 @@ func RunRibHistory(name string, cfg *RibCfg, steps []Step) (*Trace, error) {
 				t.Add("crash - %s", S(crashed))
 			}
 			break
+		}
+		if s.Burst {
+			continue
 		}
 		if err := ObsRIB(t, r); err != nil {
 			return t, err
